@@ -43,6 +43,7 @@ CREDS = [
     {'a': {'0': 'x', '': 'x'}, '': 'x', '-': 1, '.': None},
     {'a': ['x', {'a': 'x'}], '0': [[1]], 'class': {'a': None}},
     {'a': 1, 'class': True, '0': None, 'None': 1.5, '': []},
+    {'a': 'class-a-0', 'class': ['a', '0', ['class']], '0': 'a0', '': 'x'},
 ]
 DOCUMENTED = ('PolicyNotAuthorized', 'InvalidScope', 'InvalidContextObject',
               'PolicyNotRegistered')
@@ -164,7 +165,7 @@ def run(job, seed):
             acc.sample('A', leaf)
     else:
         path = PATHS[job['path']]
-        T = Trees(leaves=('x', 1, 1.5, True, None))
+        T = Trees(leaves=('x', 'ab', 1, 1.5, True, None))
         leaf = '%s:x' % path
         n = 0
         world.set_rules(enf, {'t': leaf, 'n': 'not ' + leaf,
@@ -172,7 +173,7 @@ def run(job, seed):
         for tree in T.mappings_upto(b['containers']):
             n += 1
             exp = rleaf.generic_allows(path, 'x', {}, tree)
-            acc.case('B', n > 36)
+            acc.case('B', n > 49)
             for name, tr in (('t', exp), ('n', not exp), ('l', exp)):
                 acc.ev()
                 got = attempt(enf, name, {}, tree)
